@@ -41,6 +41,15 @@ def main():
         r = sh(f"cd {wt} && timeout 600 /venv/bin/python {demo}", env=env)
         meta["confirmed"]["demo_on_clean_rc"] = r.returncode
         r = sh(f"git -C {wt} apply {diff}")
+        if r.returncode != 0:
+            # the sub-agent worked on an older HEAD (later fix: commits touched neighbouring lines): 3-way merge the
+            # change onto the current HEAD and keep the re-based diff
+            r = sh(f"git -C {wt} apply --3way {diff} && git -C {wt} reset -q")
+            if r.returncode == 0:
+                rebased = sh(f"git -C {wt} diff -- pygamma_agreement").stdout
+                diff = f"{out}/rebased.diff"
+                open(diff, "w").write(rebased)
+                meta["confirmed"]["rebased_onto_head"] = True
         meta["confirmed"]["patch_applies"] = r.returncode == 0
         if r.returncode != 0:
             meta["confirmed"]["apply_error"] = r.stderr[-500:]
@@ -64,6 +73,10 @@ def main():
                                  "violations": [l.strip()[:400] for l in r.stdout.splitlines() if l.startswith("  violation")][:4],
                                  "harness": [l[:300] for l in r.stdout.splitlines() if l.startswith("HARNESS")][:2]}
     finally:
+        try:
+            diff_text = open(diff).read()
+        except Exception:
+            diff_text = None
         sh(f"git -C /repo worktree remove --force {wt}; rm -rf {out}")
     ok = (meta["confirmed"].get("demo_on_clean_rc") == 0 and meta["confirmed"].get("demo_on_changed_rc", 0) != 0
           and meta["confirmed"].get("suite_38_pass", "--no-suite" in sys.argv))
@@ -71,7 +84,7 @@ def main():
     dst = os.path.join(VERIF, "seeded", sid)
     if ok:
         os.makedirs(dst, exist_ok=True)
-        shutil.copy(diff, os.path.join(dst, "patch.diff"))
+        open(os.path.join(dst, "patch.diff"), "w").write(diff_text)
         shutil.copy(demo, os.path.join(dst, "demo.py"))
         if os.path.exists(f"{src}/notes.md"):
             shutil.copy(f"{src}/notes.md", os.path.join(dst, "notes.md"))
